@@ -38,6 +38,9 @@ RULE = (
     "k keeps: unchanged after the call, and the same call repeated with the same objects give"
     "s the same request and answer; answers of exactly 65505/65506/65507 octets on every leve"
     "l; clients switched from the other community version with the same community string."
+    " Value OBJECTS taken from get/multiget responses are written back through set()/multiset"
+    "(); every counter that can travel in a Report (usmStats, snmpMPDStats, snmpUnavailableCo"
+    "ntexts, snmpUnknownContexts) is also read as an ordinary object."
 )
 ASSUMPTIONS = [
     "reference agent conformant (vf/agent.py); count faults are injected at PDU level by the agent's pdu_hook and travel inside authentic (v3: signed/encrypted) responses",
